@@ -22,7 +22,12 @@ CLAUSES = ["LineClipInside", "LineClipUnion", "LineClipTags", "PolyClipInside", 
 MAXDEN = 1000
 MAXM = 500      # polygons_by_polyhedron: common denominator of all piece vertices of a case
 MAXM_LINE = 200 # lines_by_polygon: denominator of one end point (true values: <= 128)
-MATCHERS = {}
+MATCHERS = {
+    # degenerate placement (an edge of the polyhedron lies in the plane of the polygon): part of the intersection is lost
+    # although every returned piece is inside - only the area clause of that class fails, the function does not raise
+    "polyclip_edge_in_plane_loses_area": lambda r: r["clause"] == "PolyClipAreaEdgeInPlane" and r["fn"] == "polygons_by_polyhedron"
+    and r["ok"] and r["out"]["x"],
+}
 
 
 def _fr(v):
